@@ -1,8 +1,10 @@
 // Package c10: corrupted storage files are reported, never misread (property C10).
 //
 // "c10"  is the parent runner: it forwards every case to a pooled child process
-//        ("c10w") so that a panic on a goroutine of the implementation (errgroup
-//        readers), a runtime crash or an OOM is an observation, not a lost run.
+//
+//	("c10w") so that a panic on a goroutine of the implementation (errgroup
+//	readers), a runtime crash or an OOM is an observation, not a lost run.
+//
 // "c10w" is the worker: it drives the real nbs code on one case.
 package c10
 
@@ -19,8 +21,11 @@ import (
 	"path/filepath"
 	"strings"
 	"sync"
+	"syscall"
 	"time"
 
+	"github.com/dolthub/dolt/go/store/chunks"
+	"github.com/dolthub/dolt/go/store/constants"
 	"github.com/dolthub/dolt/go/store/hash"
 	"github.com/dolthub/dolt/go/store/nbs"
 
@@ -37,7 +42,8 @@ func init() {
 // ---------------------------------------------------------------------------
 
 type Mut struct {
-	Op    string `json:"op"` // xor | set | trunc | append | del | ins | swaprec
+	Reg   string `json:"reg"` // axor / aset: archive region spans | prefixes | refs | suffixes | footer | meta
+	Op    string `json:"op"`  // xor | set | trunc | append | del | ins | swaprec | cprec | axor | aset
 	Pos   int    `json:"pos"`
 	V     int    `json:"v"`
 	N     int    `json:"n"`
@@ -66,7 +72,7 @@ type Case struct {
 	Root  []int `json:"root"`
 	GcGen []int `json:"gcgen"`
 	Muts  []Mut `json:"muts"`
-	Gm    bool  `json:"gm"` // table: also run the getMany phase
+	Gm    bool  `json:"gm"`    // table: also run the getMany phase
 	Short []int `json:"short"` // table (probe only, never generated): ResolveShortHash of this prefix string
 	// resolve: short prefixes to resolve. tuple: index tuple of the pristine file whose hash is taken
 	// (negative: from the end), n: number of characters kept; or raw: literal characters
@@ -75,6 +81,13 @@ type Case struct {
 		N     int   `json:"n"`
 		Raw   []int `json:"raw"`
 	} `json:"shorts"`
+
+	// store: a real database directory
+	Layout  string    `json:"layout"`  // table | journal | archive
+	Batches [][][]int `json:"batches"` // chunk contents per commit
+	Target  string    `json:"target"`  // manifest | table | journal | idx | archive
+	TargetN int       `json:"targetn"` // which table file (sorted by name)
+	Extras  bool      `json:"extras"`  // table/archive: also run hasMany / extract / tolerant iteration
 
 	Phase string `json:"phase,omitempty"` // set by the parent: main | getmany
 	Dir   string `json:"dir,omitempty"`   // set by the parent: scratch directory of this case
@@ -111,12 +124,14 @@ type Obs struct {
 	Open     string    `json:"open"` // ok | err | panic
 	OpenErr  string    `json:"openerr,omitempty"`
 	Res      []AddrObs `json:"res"`
-	Iter     string    `json:"iter"`    // ok | bad | err | panic | skip
-	IterN    int       `json:"itern"`   // chunks delivered by the iteration
+	Iter     string    `json:"iter"`            // ok | bad | err | panic | skip
+	IterN    int       `json:"itern"`           // chunks delivered by the iteration
 	Short    string    `json:"short,omitempty"` // probe: ok | err | panic
-	GetMany  string    `json:"getmany"` // ok | bad | err | crash | skip
+	GetMany  string    `json:"getmany"`         // ok | bad | err | crash | skip
 	Detail   []string  `json:"detail,omitempty"`
 	CrashMsg string    `json:"crashmsg,omitempty"`
+	Extra    []int     `json:"extra"` // oracle-only operations: 0 ok | 1 wrong content | 2 err | 3 panic
+	ExtraOps []string  `json:"extraops,omitempty"`
 	// resolve
 	Shorts  [][]int      `json:"shorts"`
 	Resolve []ResolveObs `json:"resolve"`
@@ -194,11 +209,64 @@ func recSpans(file []byte) [][2]int {
 	return out
 }
 
+// archiveRegion returns the start offset of a region of a pristine archive file (-1: unknown).
+func archiveRegion(file []byte, reg string) int {
+	n := len(file)
+	if n < 220 {
+		return -1
+	}
+	u32 := func(p int) int {
+		return int(uint32(file[p])<<24 | uint32(file[p+1])<<16 | uint32(file[p+2])<<8 | uint32(file[p+3]))
+	}
+	ft := n - 220
+	ver := int(file[n-8])
+	fs := 220
+	isz := u32(ft)<<32 | u32(ft+4)
+	if ver < 3 {
+		fs = 216
+		isz = u32(ft + 4)
+	}
+	spans, cnt, meta := u32(ft+8), u32(ft+12), u32(ft+16)
+	idx := n - fs - meta - isz
+	switch reg {
+	case "spans":
+		return idx
+	case "prefixes":
+		return idx + 8*spans
+	case "refs":
+		return idx + 8*spans + 8*cnt
+	case "suffixes":
+		return idx + 8*spans + 16*cnt
+	case "meta":
+		return n - fs - meta
+	case "footer":
+		return ft
+	}
+	return -1
+}
+
 func mutate(file []byte, muts []Mut) []byte {
 	f := append([]byte{}, file...)
 	spans := recSpans(file)
 	for _, m := range muts {
 		switch m.Op {
+		case "axor", "aset":
+			base := archiveRegion(file, m.Reg)
+			if base < 0 {
+				continue
+			}
+			p := base + m.Pos
+			if m.Op == "axor" {
+				if p >= 0 && p < len(f) {
+					f[p] ^= byte(m.V)
+				}
+			} else {
+				for i, b := range m.Bytes {
+					if p+i >= 0 && p+i < len(f) {
+						f[p+i] = byte(b)
+					}
+				}
+			}
 		case "xor":
 			if len(f) > 0 {
 				f[norm(m.Pos, len(f))] ^= byte(m.V)
@@ -303,7 +371,17 @@ func errClass(err error) string {
 // Work answers on os.Stdout directly (hk buffers its own output until exit): one line
 // {"w":1,"obs":..}|{"w":1,"err":..}|{"w":1,"panic":..}, preceded by a newline so that a
 // partially flushed hk line never glues onto it. The parent skips every line without "w".
+var limitOnce sync.Once
+
+// limitMemory caps the worker's address space: a read path that allocates what a corrupted length or
+// count field says dies quickly ("out of memory") instead of thrashing the machine for minutes.
+func limitMemory() {
+	lim := syscall.Rlimit{Cur: 3 << 30, Max: 3 << 30}
+	syscall.Setrlimit(syscall.RLIMIT_AS, &lim)
+}
+
 func Work(raw json.RawMessage) (any, error) {
+	limitOnce.Do(limitMemory)
 	var line struct {
 		W     int    `json:"w"`
 		Obs   any    `json:"obs,omitempty"`
@@ -338,7 +416,11 @@ func work1(raw json.RawMessage) (any, error) {
 	}
 	switch c.K {
 	case "table":
-		return workTable(&c)
+		return workTable(&c, false)
+	case "archive":
+		return workTable(&c, true)
+	case "store":
+		return workStore(&c)
 	case "resolve":
 		return workResolve(&c)
 	case "journal":
@@ -349,13 +431,24 @@ func work1(raw json.RawMessage) (any, error) {
 	return nil, fmt.Errorf("unknown case kind %q", c.K)
 }
 
-func workTable(c *Case) (any, error) {
+func workTable(c *Case, archive bool) (any, error) {
 	ctx := context.Background()
 	data := make([][]byte, len(c.Chunks))
 	for i, ch := range c.Chunks {
 		data[i] = toBytes(ch)
 	}
-	file, name, addrs, err := nbs.VerifC10BuildTable(data)
+	var file []byte
+	var name hash.Hash
+	var addrs []hash.Hash
+	var err error
+	fname := ""
+	if archive {
+		name, file, addrs, err = nbs.VerifC10BuildArchive(c.Dir, data)
+		fname = name.String() + nbs.ArchiveFileSuffix
+	} else {
+		file, name, addrs, err = nbs.VerifC10BuildTable(data)
+		fname = name.String()
+	}
 	if err != nil {
 		return nil, err
 	}
@@ -367,11 +460,11 @@ func workTable(c *Case) (any, error) {
 		cnt = len(c.Chunks)
 	}
 	mf := mutate(file, c.Muts)
-	o := Obs{K: "table", Bytes: fromBytes(mf), Cnt: cnt, Iter: "skip", GetMany: "skip", Res: []AddrObs{}, Recs: []JRecObs{}, Specs: []SpecObs{}}
+	o := Obs{K: c.K, Bytes: fromBytes(mf), Cnt: cnt, Iter: "skip", GetMany: "skip", Res: []AddrObs{}, Recs: []JRecObs{}, Specs: []SpecObs{}, Extra: []int{}}
 	for _, a := range addrs {
 		o.Addrs = append(o.Addrs, fromBytes(a[:]))
 	}
-	if err := os.WriteFile(filepath.Join(c.Dir, name.String()), mf, 0o644); err != nil {
+	if err := os.WriteFile(filepath.Join(c.Dir, fname), mf, 0o644); err != nil {
 		return nil, err
 	}
 	var tbl *nbs.VerifC10Table
@@ -408,6 +501,42 @@ func workTable(c *Case) (any, error) {
 				o.GetMany = "bad"
 			}
 		}
+		return o, nil
+	}
+	if c.Phase == "iter" {
+		o.Iter, msg = safe(func() string {
+			res := "ok"
+			err := tbl.IterateAll(ctx, func(h hash.Hash, d []byte) {
+				o.IterN++
+				if hash.Of(d) != h {
+					res = "bad"
+				}
+			})
+			if err != nil {
+				return "err"
+			}
+			return res
+		})
+		if msg != "" {
+			o.Detail = append(o.Detail, "iter: "+msg)
+		}
+		return o, nil
+	}
+	if c.Phase == "extras" {
+		hasRes := make([]string, len(addrs))
+		for i, a := range addrs {
+			hasRes[i], _ = safe(func() string {
+				ok, err := tbl.Has(a)
+				if err != nil {
+					return "err"
+				}
+				if ok {
+					return "t"
+				}
+				return "f"
+			})
+		}
+		runExtras(ctx, &o, tbl, addrs, hasRes)
 		return o, nil
 	}
 	for _, a := range addrs {
@@ -455,6 +584,10 @@ func workTable(c *Case) (any, error) {
 			o.Detail = append(o.Detail, "short: "+msg)
 		}
 	}
+	if archive && c.Phase == "main" {
+		// the archive iteration can take the whole process down (buffer doubling on a corrupt span length): own phase
+		return o, nil
+	}
 	o.Iter, msg = safe(func() string {
 		res := "ok"
 		err := tbl.IterateAll(ctx, func(h hash.Hash, d []byte) {
@@ -471,6 +604,276 @@ func workTable(c *Case) (any, error) {
 	if msg != "" {
 		o.Detail = append(o.Detail, "iter: "+msg)
 	}
+	return o, nil
+}
+
+func runExtras(ctx context.Context, o *Obs, tbl *nbs.VerifC10Table, addrs []hash.Hash, hasRes []string) {
+	extra := func(op string, f func() string) {
+		r, m := safe(f)
+		code := map[string]int{"ok": 0, "bad": 1, "err": 2, "panic": 3}[r]
+		o.Extra = append(o.Extra, code)
+		o.ExtraOps = append(o.ExtraOps, op+":"+r)
+		if m != "" {
+			o.Detail = append(o.Detail, op+": "+m)
+		}
+	}
+	extra("hasmany", func() string {
+		present, _, err := tbl.HasMany(addrs)
+		if err != nil {
+			return "err"
+		}
+		for i, p := range present {
+			if i < len(hasRes) && ((hasRes[i] == "t") != p) && (hasRes[i] == "t" || hasRes[i] == "f") {
+				return "bad" // hasMany disagrees with has
+			}
+		}
+		return "ok"
+	})
+	extra("tolerant", func() string {
+		res := "ok"
+		tbl.TolerantIterateAll(ctx, func(h hash.Hash, d []byte) {
+			if hash.Of(d) != h {
+				res = "bad"
+			}
+		})
+		return res
+	})
+	extra("extract", func() string {
+		res := "ok"
+		_, err := tbl.Extract(ctx, func(h hash.Hash, d []byte) {
+			if hash.Of(d) != h {
+				res = "bad"
+			}
+		})
+		if err != nil {
+			return "err"
+		}
+		return res
+	})
+}
+
+// ---------------------------------------------------------------------------
+// store level: a real database directory, one file corrupted, opened through the public constructors
+// ---------------------------------------------------------------------------
+
+func noAddrs(chunks.Chunk) chunks.InsertAddrsCb {
+	return func(context.Context, hash.HashSet, chunks.PendingRefExists) error { return nil }
+}
+
+func openStore(ctx context.Context, layout, dir string) (*nbs.NomsBlockStore, error) {
+	if layout == "journal" {
+		return nbs.NewLocalJournalingStore(ctx, constants.FormatDefaultString, dir, nbs.NewUnlimitedMemQuotaProvider(), false, func(error) {})
+	}
+	return nbs.NewLocalStore(ctx, constants.FormatDefaultString, dir, 1<<16, nbs.NewUnlimitedMemQuotaProvider(), false)
+}
+
+func tableFiles(dir string) []string {
+	ents, _ := os.ReadDir(dir)
+	var out []string
+	for _, e := range ents {
+		n := e.Name()
+		if len(n) == 32 && n != "vvvvvvvvvvvvvvvvvvvvvvvvvvvvvvvv" {
+			if _, ok := hash.MaybeParse(n); ok {
+				out = append(out, n)
+			}
+		}
+	}
+	return out
+}
+
+// buildStore creates the database, returns the addresses stored and the path of the target file ("" if absent).
+func buildStore(ctx context.Context, c *Case, dir string) (addrs []hash.Hash, target string, err error) {
+	if err = os.MkdirAll(dir, 0o755); err != nil {
+		return
+	}
+	st, err := openStore(ctx, c.Layout, dir)
+	if err != nil {
+		return
+	}
+	last, err := st.Root(ctx)
+	if err != nil {
+		return
+	}
+	var all [][]byte
+	for _, b := range c.Batches {
+		var root hash.Hash
+		for _, d := range b {
+			ch := chunks.NewChunk(toBytes(d))
+			if err = st.Put(ctx, ch, noAddrs); err != nil {
+				return
+			}
+			addrs = append(addrs, ch.Hash())
+			all = append(all, toBytes(d))
+			root = ch.Hash()
+		}
+		var ok bool
+		if ok, err = st.Commit(ctx, root, last); err != nil || !ok {
+			if err == nil {
+				err = errors.New("commit refused")
+			}
+			return
+		}
+		last = root
+	}
+	if err = st.Close(); err != nil {
+		return
+	}
+	if c.Layout == "archive" {
+		// replace the (single) table file by an archive of the same chunks and point the manifest at it
+		tfs := tableFiles(dir)
+		if len(tfs) != 1 {
+			return nil, "", fmt.Errorf("archive layout needs exactly one table file, have %d", len(tfs))
+		}
+		var aname hash.Hash
+		if aname, _, _, err = nbs.VerifC10BuildArchive(dir, all); err != nil {
+			return
+		}
+		var mb []byte
+		if mb, err = os.ReadFile(filepath.Join(dir, "manifest")); err != nil {
+			return
+		}
+		mb = bytes.Replace(mb, []byte(tfs[0]), []byte(aname.String()), 1)
+		if err = os.WriteFile(filepath.Join(dir, "manifest"), mb, 0o644); err != nil {
+			return
+		}
+		os.Remove(filepath.Join(dir, tfs[0]))
+	}
+	switch c.Target {
+	case "manifest":
+		target = filepath.Join(dir, "manifest")
+	case "journal":
+		target = filepath.Join(dir, "vvvvvvvvvvvvvvvvvvvvvvvvvvvvvvvv")
+	case "idx":
+		target = filepath.Join(dir, "journal.idx")
+	case "table":
+		tfs := tableFiles(dir)
+		if len(tfs) > 0 {
+			target = filepath.Join(dir, tfs[norm(c.TargetN, len(tfs))])
+		}
+	case "archive":
+		m, _ := filepath.Glob(filepath.Join(dir, "*"+nbs.ArchiveFileSuffix))
+		if len(m) > 0 {
+			target = m[0]
+		}
+	}
+	if target != "" {
+		if _, e := os.Stat(target); e != nil {
+			target = ""
+		}
+	}
+	return
+}
+
+func workStore(c *Case) (any, error) {
+	ctx := context.Background()
+	dir := filepath.Join(c.Dir, "db-"+c.Phase)
+	addrs, target, err := buildStore(ctx, c, dir)
+	if err != nil {
+		return nil, err
+	}
+	for _, a := range c.Absent {
+		addrs = append(addrs, hash.Of(toBytes(a)))
+	}
+	o := Obs{K: "store", Iter: "skip", GetMany: "skip", Res: []AddrObs{}, Recs: []JRecObs{}, Specs: []SpecObs{}, Extra: []int{}}
+	if target == "" {
+		o.Open = "notarget"
+		return o, nil
+	}
+	orig, err := os.ReadFile(target)
+	if err != nil {
+		return nil, err
+	}
+	mf := mutate(orig, c.Muts)
+	o.Cnt = len(mf)
+	if err := os.WriteFile(target, mf, 0o644); err != nil {
+		return nil, err
+	}
+	add := func(op, r, m string) {
+		code := map[string]int{"ok": 0, "bad": 1, "err": 2, "panic": 3}[r]
+		o.Extra = append(o.Extra, code)
+		o.ExtraOps = append(o.ExtraOps, op+":"+r)
+		if m != "" {
+			o.Detail = append(o.Detail, op+": "+m)
+		}
+	}
+	var st *nbs.NomsBlockStore
+	r, m := safe(func() string {
+		s, err := openStore(ctx, c.Layout, dir)
+		if err != nil {
+			o.OpenErr = err.Error()
+			return "err"
+		}
+		st = s
+		return "ok"
+	})
+	o.Open = r
+	add("open", r, m)
+	if r != "ok" {
+		return o, nil
+	}
+	defer func() {
+		defer func() { recover() }()
+		st.Close()
+	}()
+	if c.Phase == "getmany" {
+		o.Extra, o.ExtraOps = []int{}, nil
+		set := hash.NewHashSet(addrs...)
+		var mu sync.Mutex
+		bad := false
+		err := st.GetMany(ctx, set, func(_ context.Context, ch *chunks.Chunk) {
+			mu.Lock()
+			defer mu.Unlock()
+			if hash.Of(ch.Data()) != ch.Hash() || !set.Has(ch.Hash()) {
+				bad = true
+			}
+		})
+		switch {
+		case err != nil:
+			o.GetMany = "err"
+		case bad:
+			o.GetMany = "bad"
+		default:
+			o.GetMany = "ok"
+		}
+		return o, nil
+	}
+	r, m = safe(func() string {
+		if _, err := st.Root(ctx); err != nil {
+			return "err"
+		}
+		return "ok"
+	})
+	add("root", r, m)
+	for _, a := range addrs {
+		r, m = safe(func() string {
+			if _, err := st.Has(ctx, a); err != nil {
+				return "err"
+			}
+			return "ok"
+		})
+		add("has", r, m)
+		r, m = safe(func() string {
+			ch, err := st.Get(ctx, a)
+			if err != nil {
+				return "err"
+			}
+			if ch.IsEmpty() {
+				return "ok"
+			}
+			if hash.Of(ch.Data()) != a {
+				return "bad"
+			}
+			return "ok"
+		})
+		add("get", r, m)
+	}
+	r, m = safe(func() string {
+		if _, err := st.HasMany(ctx, hash.NewHashSet(addrs...)); err != nil {
+			return "err"
+		}
+		return "ok"
+	})
+	add("hasmany", r, m)
 	return o, nil
 }
 
@@ -741,7 +1144,7 @@ func ask(c *Case) (line childLine, crashed bool, crashMsg string, err error) {
 	var r rd
 	select {
 	case r = <-ch:
-	case <-time.After(240 * time.Second):
+	case <-time.After(45 * time.Second):
 		k.cmd.Process.Kill()
 		r = rd{nil, errors.New("timeout")}
 	}
@@ -794,12 +1197,62 @@ func Run(raw json.RawMessage) (any, error) {
 	if line.Err != "" {
 		return nil, errors.New(line.Err)
 	}
-	if c.K != "table" {
+	if c.K != "table" && c.K != "archive" && c.K != "store" {
 		return line.Obs, nil
 	}
 	var o Obs
 	if err := json.Unmarshal(line.Obs, &o); err != nil {
 		return nil, err
+	}
+	if o.Open == "ok" && c.K == "archive" {
+		c.Phase = "iter"
+		l4, crashed4, cmsg4, err := ask(&c)
+		if err != nil {
+			return nil, err
+		}
+		switch {
+		case crashed4:
+			o.Iter = "panic"
+			o.Detail = append(o.Detail, "iter: crash: "+firstLines(cmsg4, 3))
+		case l4.Panic != "":
+			o.Iter = "panic"
+			o.Detail = append(o.Detail, "iter: crash: "+firstLines(l4.Panic, 3))
+		case l4.Err != "":
+			return nil, errors.New(l4.Err)
+		default:
+			var o4 Obs
+			if err := json.Unmarshal(l4.Obs, &o4); err != nil {
+				return nil, err
+			}
+			o.Iter, o.IterN = o4.Iter, o4.IterN
+			o.Detail = append(o.Detail, o4.Detail...)
+		}
+	}
+	if o.Open == "ok" && c.Extras && c.K != "store" {
+		c.Phase = "extras"
+		l3, crashed3, cmsg3, err := ask(&c)
+		if err != nil {
+			return nil, err
+		}
+		switch {
+		case crashed3:
+			o.Extra = []int{3}
+			o.ExtraOps = []string{"extras:crash"}
+			o.Detail = append(o.Detail, "extras: crash: "+firstLines(cmsg3, 3))
+		case l3.Panic != "":
+			o.Extra = []int{3}
+			o.ExtraOps = []string{"extras:crash"}
+			o.Detail = append(o.Detail, "extras: crash: "+firstLines(l3.Panic, 3))
+		case l3.Err != "":
+			return nil, errors.New(l3.Err)
+		default:
+			var o3 Obs
+			if err := json.Unmarshal(l3.Obs, &o3); err != nil {
+				return nil, err
+			}
+			o.Extra, o.ExtraOps = o3.Extra, o3.ExtraOps
+			o.Detail = append(o.Detail, o3.Detail...)
+		}
 	}
 	if o.Open == "ok" && c.Gm {
 		c.Phase = "getmany"
